@@ -210,7 +210,16 @@ def interpret(cluster, meta, raw):
                 if o.get("kind") in ("src", "spec") and o.get("file"):
                     return f"{o['file']}:{o['line']}"
             return None
+        # a failure of the PROOF SCRIPT rather than of the contract: a loop invariant or an `assert` hint spliced from the spec
+        # file (or the precondition of a lemma called inside such a hint) does not hold for the code as it is now.  The
+        # contract clause itself was not refuted; `check` reports such an obligation as violated only with a failing input.
+        def okind(line):
+            return origin[line - 1].get("kind") if 1 <= line <= len(origin) else None
+        in_gen = clause_span.get("file_name", "").endswith(gen_name)
+        script = (("invariant not satisfied" in msg or "assertion failed" in msg) and in_gen and okind(clause_span["line_start"]) == "spec") \
+            or ("precondition not satisfied" in msg and okind(prim[0]["line_start"]) == "spec")
         failures.append({
+            "script": bool(script),
             "obligation": ob["label"] if ob and "label" in ob else (ob["name"] if ob else "?"),
             "name": ob["name"] if ob else "?",
             "kind": msg,
